@@ -1,7 +1,7 @@
 (* C07 -- Smith normal forms and cycle bases.  Theorem statements only. *)
 From Coq Require Import ZArith List.
 From mathcomp Require Import all_ssreflect all_algebra.
-From SV Require Import Names Rep Complex Homology ListMat SnfCount Rank Betti RepInv ZCycles ZProofs ZProofs2 Shapes ShapesReach.
+From SV Require Import Names Rep Complex Homology ListMat SnfCount Rank Betti RepInv ZCycles ZProofs ZProofs2 Shapes ShapesReach ZIndep ZAll.
 
 (* smithNormalForm(k) has the shape of the order-k boundary operator, ones on a leading stretch of
    the diagonal whose length is that operator's GF(2) rank, zeros elsewhere -- for every
@@ -30,3 +30,24 @@ Theorem C07_Z_chains_are_cycles :
 Proof. exact Z1_are_cycles. Qed.
 Print Assumptions C07_Z_chains_are_cycles.
 (* Not proved (tested by the oracle on every run): linear independence of the returned chains. *)
+
+(* ... linearly independent mod 2: the matrix over GF(2) whose columns are the parity vectors of
+   the returned chains (how often, mod 2, a chain mentions the t-th simplex of the listing) has
+   rank = the number of chains *)
+Theorem C07_Z_chains_independent :
+  forall r k, sinv r ->
+  \rank (mxf (length (simplicesOfOrder r k)) (length (Z1 r k))
+             (fun t j => par (lab_in (simplicesOfOrder r k)) (List.nth j (Z1 r k) nil) t)) = length (Z1 r k).
+Proof. exact Z1_independent_all. Qed.
+Print Assumptions C07_Z_chains_independent.
+
+(* Z(k) returns a basis of the cycle group: count, cycles, independence *)
+Theorem C07_Z_is_a_cycle_basis :
+  forall r k, sinv r ->
+  length (Z1 r k) = (length (simplicesOfOrder r k) - rk (boundaryOperator r k))%coq_nat /\
+  (forall ch, List.In ch (Z1 r k) ->
+     forall i, (i < nrows (boundaryOperator r k))%coq_nat -> vsum name (colval r k) ch i = false) /\
+  \rank (mxf (length (simplicesOfOrder r k)) (length (Z1 r k))
+             (fun t j => par (lab_in (simplicesOfOrder r k)) (List.nth j (Z1 r k) nil) t)) = length (Z1 r k).
+Proof. exact Z1_is_a_cycle_basis. Qed.
+Print Assumptions C07_Z_is_a_cycle_basis.
